@@ -32,6 +32,7 @@ type c17Case struct {
 	Min    F64   `json:"min,omitempty"`
 	Max    F64   `json:"max,omitempty"`
 	Levels []int `json:"levels,omitempty"`
+	Hist   int   `json:"hist,omitempty"` // history on the scale object before the observed calls
 }
 
 type c17Ticker struct {
@@ -88,35 +89,76 @@ func c17Run(raw []byte) (*Line, error) {
 			return nil, fmt.Errorf("too many levels")
 		}
 		l.I(c.Base).F(mn).F(mx).I(c.O.Max).I(c.O.MinLevel).I(c.O.MaxLevel)
-		type tickScale interface {
-			Ticks(o scale.TickOptions) (major, minor []float64)
-		}
-		var ticks func() ([]float64, []float64)
+		// ONE scale object goes through the whole case: an optional history (Hist) of other
+		// calls and of assignments to the exported fields first, then the observed calls, so
+		// that state cached behind the exported fields would show.
+		//   Hist 0: constructed with the target domain, used at once
+		//   Hist 1: constructed with another domain and base, used (Ticks, Nice, CountTicks),
+		//           then Min, Max, Base assigned
+		//   Hist 2: SetClamp(true), Map, Ticks with other options, CountTicks, SetClamp(false)
+		//   Hist 3: Ticks twice with other options, TicksAtLevel, then the observed calls
+		var ticksO func(o scale.TickOptions) ([]float64, []float64)
 		var count func(level int) int
 		var at func(level int) []float64
-		var nice func() (float64, float64) // Nice(o) on the current scale; returns the new bounds
+		var niceO func(o scale.TickOptions) (float64, float64) // Nice(o) on the object; returns the new bounds
+		var mapf func(x float64) float64
+		var setClamp func(bool)
+		var assign func(mn, mx float64, base int)
+		imn, imx, ibase := mn, mx, c.Base
+		if c.Hist == 1 {
+			imn, imx, ibase = 1, 1000, 10
+			if c.K == 2 && mn < 0 {
+				imn, imx = 3, 5e6
+			}
+			if c.Base == 10 {
+				ibase = 2
+			}
+		}
 		if c.K == 1 {
 			if mn > mx && len(c.Levels) > 0 {
 				return nil, fmt.Errorf("per-level observations need an ordered domain")
 			}
-			s := scale.Linear{Min: mn, Max: mx, Base: c.Base}
-			ticks = func() ([]float64, []float64) { return s.Ticks(o) }
+			s := &scale.Linear{Min: imn, Max: imx, Base: ibase}
+			ticksO = func(o scale.TickOptions) ([]float64, []float64) { return s.Ticks(o) }
 			count = func(level int) int { return s.CountTicks(level) }
 			at = func(level int) []float64 { return s.TicksAtLevel(level).([]float64) }
-			nice = func() (float64, float64) { s.Nice(o); return s.Min, s.Max }
+			niceO = func(o scale.TickOptions) (float64, float64) { s.Nice(o); return s.Min, s.Max }
+			mapf = func(x float64) float64 { return s.Map(x) }
+			setClamp = func(b bool) { s.SetClamp(b) }
+			assign = func(a, b float64, base int) { s.Min, s.Max, s.Base = a, b, base }
 		} else {
 			if !(mn <= mx) || !(mn*mx > 0) || c.Base < 2 {
 				return nil, fmt.Errorf("not a Log scale NewLog returns")
 			}
-			s, err := scale.NewLog(mn, mx, c.Base)
+			lg, err := scale.NewLog(imn, imx, ibase)
 			if err != nil {
 				return nil, fmt.Errorf("NewLog: %v", err)
 			}
-			ticks = func() ([]float64, []float64) { return s.Ticks(o) }
+			s := &lg
+			ticksO = func(o scale.TickOptions) ([]float64, []float64) { return s.Ticks(o) }
 			count = func(level int) int { return s.CountTicks(level) }
 			at = func(level int) []float64 { return s.TicksAtLevel(level).([]float64) }
-			nice = func() (float64, float64) { s.Nice(o); return s.Min, s.Max }
+			niceO = func(o scale.TickOptions) (float64, float64) { s.Nice(o); return s.Min, s.Max }
+			mapf = func(x float64) float64 { return s.Map(x) }
+			setClamp = func(b bool) { s.SetClamp(b) }
+			assign = func(a, b float64, base int) { s.Min, s.Max, s.Base = a, b, base }
 		}
+		o2 := scale.TickOptions{Max: c.O.Max + 3}
+		if o2.Max < 1 {
+			o2.Max = 4
+		}
+		switch c.Hist {
+		case 1:
+			catch(func() { ticksO(o2); niceO(o2); count(1); at(2); ticksO(o) })
+			assign(mn, mx, c.Base)
+		case 2:
+			catch(func() { setClamp(true); mapf(mn); mapf(mx * 2); ticksO(o2); count(2) })
+			setClamp(false)
+		case 3:
+			catch(func() { ticksO(o2); ticksO(scale.TickOptions{Max: 1}); at(3) })
+		}
+		ticks := func() ([]float64, []float64) { return ticksO(o) }
+		nice := func() (float64, float64) { return niceO(o) }
 		var major, minor []float64
 		pan, _ := catch(func() { major, minor = ticks() })
 		l.I(st(pan)).Fs(major).Fs(minor)
@@ -130,7 +172,10 @@ func c17Run(raw []byte) (*Line, error) {
 		var a, b float64
 		pan, _ = catch(func() { a, b = nice() })
 		l.I(st(pan)).F(a).F(b)
-		// after Nice: Ticks of the niced scale, then Nice again
+		// after Nice, on the same object: Map of the new bounds, Ticks, then Nice again
+		var m0, m1 float64
+		catch(func() { m0, m1 = mapf(a), mapf(b) })
+		l.F(m0).F(m1)
 		var major3 []float64
 		pan3, _ := catch(func() { major3, _ = ticks() })
 		pan, _ = catch(func() { a, b = nice() })
@@ -300,6 +345,9 @@ func c17LinearCase(rng *rand.Rand) c17Case {
 		c.Levels = nil
 	}
 	c.Min, c.Max = F64(mn), F64(mx)
+	if rng.Intn(2) == 0 {
+		c.Hist = 1 + rng.Intn(3)
+	}
 	return c
 }
 
@@ -356,6 +404,9 @@ func c17LogCase(rng *rand.Rand) c17Case {
 		mn, mx = -mx, -mn
 	}
 	c := c17Case{K: 2, Base: b, Min: F64(mn), Max: F64(mx), O: c17Opt(rng, 1, 3)}
+	if rng.Intn(2) == 0 {
+		c.Hist = 1 + rng.Intn(3)
+	}
 	if c.O.MinLevel != 0 || c.O.MaxLevel != 0 { // level limits: around the levels Log scales use
 		c.O.MinLevel = rng.Intn(5) - 1
 		c.O.MaxLevel = c.O.MinLevel + rng.Intn(4)
@@ -383,9 +434,9 @@ func c17LogCase(rng *rand.Rand) c17Case {
 func c17Gen(tier string, rng *rand.Rand, emit func(interface{})) {
 	thorough := tier == "thorough"
 	c17GenFindLevel(thorough, rng, emit)
-	nlin, nlog := 2500, 1200
+	nlin, nlog := 1500, 800
 	if thorough {
-		nlin, nlog = 60000, 25000
+		nlin, nlog = 30000, 12000
 	}
 	for i := 0; i < nlin; i++ {
 		emit(c17LinearCase(rng))
